@@ -233,8 +233,12 @@ Definition isclose_with (tol_n : Z) (tol_d : positive) (a b : num) : option bool
 
 (** Python's default [rel_tol = 1e-09] as the exact binary64 value. *)
 Definition tol_1e9 : Z * positive :=
-  (* float.as_integer_ratio(1e-09) = 4722366482869645 / 2^102 *)
-  (4722366482869645, Z.to_pos (2 ^ 102)).
+  (* (1e-09).as_integer_ratio() = 4835703278458517 / 2^82 *)
+  (4835703278458517, Z.to_pos (2 ^ 82)).
+
+(** [0.02] (the linter's rel_tol): (0.02).as_integer_ratio() = 5764607523034235 / 2^58 *)
+Definition tol_2e2 : Z * positive :=
+  (5764607523034235, Z.to_pos (2 ^ 58)).
 
 (** [round(x)] to an int: round half even of the exact value. *)
 Definition nround (a : num) : Z :=
